@@ -684,9 +684,49 @@ fn traffic_case(t: &mut Tape, obs: &mut Obs, mode: Mode, window_slots: i64) -> C
         Mode::C15 => {
             // '... or the hold time is over': the per-visit deadline clause (shared with C13)
             hold_time_clause(&r)?;
-            c15_oracle(&r, obs)
+            c15_oracle(&r, obs)?;
+            offline_switch_epilogue(t, &mut r, obs)
         }
     }
+}
+
+/// Epilogue of a C15 run (after the oracles have judged the log): at a generated instant a station
+/// with several applications is taken offline - in the middle of whatever turn it is in -, gets a
+/// shorter application list (documented as allowed while offline) and goes online again.  The
+/// run continues until its remaining application is asked again; only 'no panic' is judged.
+fn offline_switch_epilogue(t: &mut Tape, r: &mut TrafficRun, obs: &mut Obs) -> CaseResult {
+    if !t.bool() {
+        return Ok(());
+    }
+    let cands: Vec<usize> = (0..r.sim.nodes.len()).filter(|i| r.sim.nodes[*i].apps.len() >= 2).collect();
+    if cands.is_empty() {
+        return Ok(());
+    }
+    let x = cands[t.below(cands.len() as u64) as usize];
+    for _ in 0..t.below(400) {
+        if r.sim.step().is_none() {
+            break;
+        }
+    }
+    let keep = 1 + t.below(r.sim.nodes[x].apps.len() as u64 - 1) as usize;
+    let now = r.sim.now;
+    r.sim.restart_station(x, now);
+    r.sim.nodes[x].apps.truncate(keep);
+    let mark = r.log.borrow().len();
+    let stop_at = now + 3000 * r.cfg.slot_us();
+    let mut asked_again = false;
+    while let Some(tn) = r.sim.next_time() {
+        if tn > stop_at {
+            break;
+        }
+        r.sim.step();
+        if r.log.borrow()[mark..].iter().any(|e| e.station() == x) {
+            asked_again = true;
+            break;
+        }
+    }
+    obs.label(if asked_again { "offline-shorter-application-list-online-asked-again" } else { "offline-shorter-application-list-online" });
+    Ok(())
 }
 
 pub fn c13() -> Property {
@@ -722,11 +762,18 @@ fn chunked_reply_case(i: u64, obs: &mut Obs) -> CaseResult {
     const SLOT: i64 = 300;
     let cut = 1 + (i % 8) as usize;
     let pause = [40i64, 100, 180, 250][((i / 8) % 4) as usize];
-    let every = if i / 32 == 0 { 1 } else { 3 };
+    let every = if (i % 64) / 32 == 0 { 1 } else { 3 };
+    // PHY transmit latency and response delay of the peer (bit times): a PHY that finishes its
+    // transmission later than nominal (UART FIFO, USB adapter) - the slot time counts from the real end
+    let (latency, delay) = [(0i64, 30i64), (SLOT / 3, 230), (0, 230)][((i / 64) % 3) as usize];
     let log: Log = Rc::new(RefCell::new(vec![]));
     let spec = AppSpec { burst: u32::MAX, targets: vec![9], kind: ReqKind::SrdLow, pdu_len: 2 };
     let mut app = TrafficApp::new(0, 0, TS, spec, log.clone());
     let mut w = World::new(TS, 6, profirust::Baudrate::B1500000, SLOT as u16, 100, Some(200_000));
+    w.bus.0.borrow_mut().tx_latency_us[0] = w.bit_us(latency);
+    if latency > 0 {
+        obs.label("phy-with-transmit-latency");
+    }
     let mut seen = 0usize;
     let mut requests = 0u64;
     let mut pending: Vec<(i64, Vec<u8>)> = vec![];
@@ -754,12 +801,12 @@ fn chunked_reply_case(i: u64, obs: &mut Obs) -> CaseResult {
                 let reply = rc::encode(&RefFrame::Data { da: TS, sa: da, dsap: Some(41), ssap: Some(40), fc: 0x08, pdu: vec![requests as u8, 0x5A] });
                 if requests % every == 0 {
                     let k = cut.min(reply.len() - 1);
-                    let t1 = end + w.bit_us(30);
+                    let t1 = end + w.bit_us(delay);
                     let t2 = t1 + w.bit_us(11 * k as i64 + pause);
                     pending.push((t1, reply[..k].to_vec()));
                     pending.push((t2, reply[k..].to_vec()));
                 } else {
-                    pending.push((end + w.bit_us(30), reply));
+                    pending.push((end + w.bit_us(delay), reply));
                 }
             }
         }
@@ -803,7 +850,7 @@ fn chunked_reply_case(i: u64, obs: &mut Obs) -> CaseResult {
     obs.count("replies", replies);
     obs.count("timeouts", timeouts);
     obs.nontrivial(i);
-    obs.sample(|| json!({"cut_after_bytes": cut, "pause_bits": pause, "every": every, "requests": requests, "replies": replies}));
+    obs.sample(|| json!({"cut_after_bytes": cut, "pause_bits": pause, "every": every, "requests": requests, "replies": replies, "phy_latency_bits": latency, "reply_delay_bits": delay}));
     Ok(())
 }
 
@@ -818,11 +865,11 @@ pub fn c15() -> Property {
         subchecks: vec![
             SubCheck::tape("callbacks", "rings with instrumented applications and misbehaving peers, window 1500 slot times", |t, obs| traffic_case(t, obs, Mode::C15, 1500)),
             SubCheck::tape("callbacks_long", "window of 20000 slot times", |t, obs| traffic_case(t, obs, Mode::C15, 20_000)),
-            SubCheck::index("chunked_reply", "the reply reaches the station in two pieces with a pause of 40..250 bit times (constructed, 64 scenarios): exactly one outcome per request, and a delivered reply answers that very request", chunked_reply_case),
+            SubCheck::index("chunked_reply", "the reply reaches the station in two pieces with a pause of 40..250 bit times, 30 or 230 bit times after the request, over a PHY without / with transmit latency (constructed, 192 scenarios): exactly one outcome per request, and a delivered reply answers that very request", chunked_reply_case),
         ],
         plan: |tier| match tier {
-            Tier::Quick => vec![Step::Enumerate { kind: "chunked_reply", count: 64 }, Step::Pbt { kind: "callbacks", cases: 1200, max_len: 120 }],
-            Tier::Thorough => vec![Step::Enumerate { kind: "chunked_reply", count: 64 }, Step::Pbt { kind: "callbacks", cases: 10_000, max_len: 120 }, Step::Pbt { kind: "callbacks_long", cases: 400, max_len: 120 }],
+            Tier::Quick => vec![Step::Enumerate { kind: "chunked_reply", count: 192 }, Step::Pbt { kind: "callbacks", cases: 1200, max_len: 120 }],
+            Tier::Thorough => vec![Step::Enumerate { kind: "chunked_reply", count: 192 }, Step::Pbt { kind: "callbacks", cases: 10_000, max_len: 120 }, Step::Pbt { kind: "callbacks_long", cases: 400, max_len: 120 }],
         },
         hang_is_violation: false,
         hang_limit_s: 900,
